@@ -104,6 +104,7 @@ def failures_of(prop, sc, res, monitor):
     try:
         from . import monitors as _M
         pf += ["wire: " + f for f in _M.mon_wire(log)]
+        pf += _M.mon_ws_upgrade(sc, res)
     except Exception as ex:
         tf.append("wire monitor raised %r" % (ex,))
     if monitor is not None:
